@@ -381,6 +381,31 @@ def run_c14(ctx):
                                 {"dsl": t, "target": lang, "files": bad[:5],
                                  "alone": alone.get(bad[0], b"").decode("utf-8", "replace")[:1500],
                                  "together": together[lang].get(bad[0], b"").decode("utf-8", "replace")[:1500]})
+            # output directories that overlap: one directory for every target, and each target's directory inside the next one's
+            # (both ways round) — what a target writes must not depend on where the OTHER targets are sent
+            alone_all = {lang: cli([lang], "one")[lang] for lang in ALL}
+            chain = {}
+            for k, lang in enumerate(ALL):
+                chain[lang] = os.path.join(*(["n"] + [ALL[j] for j in range(len(ALL) - 1, k - 1, -1)]))
+            rchain = {}
+            for k, lang in enumerate(ALL):
+                rchain[lang] = os.path.join(*(["m"] + [ALL[j] for j in range(0, k + 1)]))
+            for tag, where in (("shared", {lang: "s" for lang in ALL}), ("nested", chain), ("nested-reverse", rchain)):
+                o = os.path.join(d, "lay")
+                rm(o)
+                args = [cbin, "compile", "-f", f]
+                for lang in ALL:
+                    args += [FLAG[lang], os.path.join(o, where[lang])]
+                subprocess.run(args, cwd=d, capture_output=True, timeout=600)
+                ctx.count("directory_layouts")
+                for lang in ALL:
+                    got = read_tree(os.path.join(o, where[lang]))
+                    bad = sorted(k for k, v in alone_all[lang].items() if got.get(k) != v)
+                    if bad:
+                        ctx.finding("interference/directories/%s/%s" % (tag, lang),
+                                    "`compile` with overlapping output directories (%s): files of %s are missing or differ from a single-target run" % (tag, lang),
+                                    {"dsl": t, "target": lang, "layout": where, "files": bad[:5], "present": bad[0] in got})
+                        break
     finally:
         rm(d)
     if ctx.broken and not ctx.violations:
@@ -391,6 +416,34 @@ def run_c14(ctx):
 
 
 # --------------------------------------------------------------------------- C16
+
+LANG_TITLE = {"lua": "Lua", "rust": "Rust", "go": "Go", "java": "Java", "python": "Python", "cpp": "C++"}
+
+
+def model_world(ctx, dsl, exp, where, before, rc, got, args):
+    """T3 for the wrapper MODEL of `compile` (Cli.runCompile, the object of compile_files / compile_nowhere_else): the model is run
+    on the generators' file maps and the initial directory content; its final world must be the tree the real binary left."""
+    by_lang = {r["lang"]: r for r in exp.get("runs", [])}
+    targets = []
+    for lang in ALL:
+        r = by_lang.get(lang)
+        if lang not in where or r is None:
+            targets.append({"lang": LANG_TITLE[lang], "path": "", "files": []})
+        elif "files" not in r:
+            targets.append({"lang": LANG_TITLE[lang], "path": where[lang], "error": "x"})
+        else:
+            targets.append({"lang": LANG_TITLE[lang], "path": where[lang], "files": [[os.path.normpath(k), v] for k, v in sorted(r["files"].items())]})     # the OS identifies a//b with a/b; `World` paths are normal forms
+    try:
+        init = [[k, v.decode("utf-8")] for k, v in sorted(before.items())]
+    except UnicodeDecodeError:
+        return
+    m = leandrv.run_ops([{"op": "compile_world", "diags": [], "files": init, "targets": targets}])[0]
+    ctx.count("wrapper_model_cases")
+    mtree = {os.path.normpath(k): v.encode("utf-8") for k, v in (m.get("files") or [])}
+    if mtree != got or (m.get("exit") == 0) != (rc == 0):
+        bad = sorted(k for k in set(got) | set(mtree) if got.get(k) != mtree.get(k))
+        ctx.finding("t3/cli-model-drift/compile", "the wrapper model (Cli.runCompile) and the real `compile` leave different trees (real exit %d, model exit %s)" % (rc, m.get("exit")),
+                    {"dsl": dsl, "args": args, "differing": bad[:6], "broken": "correspondence T3/cli (theorems compile_files, compile_nowhere_else, compile_files_disjoint)"}, False)
 
 def run_c16(ctx):
     check_obligations(ctx, "C16")
@@ -405,6 +458,7 @@ def run_c16(ctx):
         texts += [t, textgen.relayout(t, rng, comments=0.2), textgen.mutate(t, rng)]
     lib = harness.run_ops([{"op": "format", "text": t} for t in texts])
     d = scratch()
+    seen_fmt = []   # (request for the wrapper model, what the real binary did)
     try:
         for t, lr in zip(texts, lib):
             if "panic" in lr or "fatal" in lr:
@@ -422,12 +476,16 @@ def run_c16(ctx):
                         ctx.count("format_d_ok")
                 elif rc == 0:
                     ctx.finding("format-d/exit", "format -d exits 0 on a syntax error", {"text": t, "stdout": out[:400]})
+                seen_fmt.append(({"op": "format_world", "fmt": lr["out"] if lr.get("ok") else None, "dsl": t, "file": "", "files": []},
+                                 {"exit": rc, "stdout": out if lr.get("ok") else None, "files": {}}, t))
             # format -f
             with open(f, "w", encoding="utf-8") as fh:
                 fh.write(t)
             fl = rng.choice(["-f", "-f", "--file", "--file=" + f])
             rc, out, err = checks_front.cli(cbin, ["format", fl] if "=" in fl else ["format", fl, f], d)
             after = open(f, encoding="utf-8").read()
+            seen_fmt.append(({"op": "format_world", "fmt": lr["out"] if lr.get("ok") else None, "dsl": "", "file": "in.dsl", "files": [["in.dsl", t]]},
+                             {"exit": rc, "stdout": out if lr.get("ok") else None, "files": {"in.dsl": after}}, t))
             if lr.get("ok"):
                 if rc != 0 or after != lr["out"]:
                     ctx.finding("format-f/file", "format -f does not leave exactly the formatter's result in the file", {"text": t, "file": after[:800], "expected": lr["out"][:800], "exit": rc})
@@ -449,6 +507,40 @@ def run_c16(ctx):
                     ctx.finding("so/error", "FormatPacketDslExport does not report the syntax error", {"text": t, "result": r["result"][:300]})
                 else:
                     ctx.count("so_ok")
+        # T3 for the wrapper MODEL (Cli.runFormat, the object of the C16 theorems): executed on the same cases, its world must be
+        # the world the real binary left behind (exit status, files; standard output when there is a result)
+        mw = leandrv.run_ops([r for r, _, _ in seen_fmt])
+        for (r, real, t), m in zip(seen_fmt, mw):
+            ctx.count("wrapper_model_cases")
+            mfiles = {k: v for k, v in (m.get("files") or [])}
+            if m.get("exit") != real["exit"] or mfiles != real["files"] or (real["stdout"] is not None and m.get("stdout") != real["stdout"]):
+                ctx.finding("t3/cli-model-drift/format", "the wrapper model (Cli.runFormat) and the real `format %s` disagree" % ("-f" if r["file"] else "-d"),
+                            {"text": t, "real": {"exit": real["exit"], "stdout": (real["stdout"] or "")[:400], "files": {k: v[:400] for k, v in real["files"].items()}},
+                             "model": {"exit": m.get("exit"), "stdout": str(m.get("stdout"))[:400]}, "broken": "correspondence T3/cli (theorems format_d, format_f, format_*_error)"}, False)
+                break
+        # the C export inside ONE long-lived host process (an editor): every text twice in a row, then an earlier text again —
+        # each answer must be the library result of THAT text, whatever was asked before
+        if so:
+            usable = [(t, lr) for t, lr in zip(texts, lib) if "\x00" not in t and not ("panic" in lr or "fatal" in lr) and not any(0xD800 <= ord(ch) <= 0xDFFF for ch in t)]
+            seq = []
+            for i, (t, lr) in enumerate(usable):
+                seq += [(t, lr), (t, lr)]
+                if i >= 2 and i % 2 == 0:
+                    seq += [usable[i - 2], (t, lr)]
+            got, ended = checks_front.so_session_results(so, [t for t, _ in seq], d)
+            ctx.count("so_session_calls", len(got))
+            if not ended:
+                ctx.finding("so/session-abort", "FormatPacketDslExport stops answering after %d of %d calls in one host process" % (len(got), len(seq)),
+                            {"texts": [t for t, _ in seq[max(0, len(got) - 3):len(got) + 1]]})
+            for k, ((t, lr), r) in enumerate(zip(seq, got)):
+                if r is None:
+                    continue
+                bad = (r != lr["out"]) if lr.get("ok") else (not r.startswith("Error:"))
+                if bad:
+                    ctx.finding("so/session-result", "FormatPacketDslExport, call %d of one host process: the answer is not the library result of the text it was given "
+                                "(the same text asked once in a fresh process is answered correctly)" % (k + 1),
+                                {"text": t, "result": r[:600], "expected": (lr["out"][:600] if lr.get("ok") else "Error:…"), "previous_texts": [x for x, _ in seq[max(0, k - 3):k]]})
+                    break
         # compile: explicit and implicit sub-command, flag subsets
         progs = [dslgen.render(dslgen.gen_program(rng, dslgen.Cfg())) for _ in range(4 if ctx.tier == "quick" else 40)]
         # programs without a packet (an options / MetaData dictionary): the targets that accept them still have a file set
@@ -503,6 +595,7 @@ def run_c16(ctx):
                     got = read_tree(o)
                     ctx.count("compile_runs")
                     stray = set(os.listdir(d)) - before - {"out"}
+                    model_world(ctx, t, exp, {lang: lang for lang in sub}, {rel: body + b"\n// stale tail of a previous, longer output\n" * 20 for rel, body in want.items()} if stale else {}, rc, got, args)
                     if rc != 0 or got != want or stray:
                         bad = sorted(k for k in set(got) | set(want) if got.get(k) != want.get(k))
                         ctx.finding("compile/%s%s" % ("over-existing-files" if stale else "implicit" if implicit else "explicit", "" if style == "short" else "/" + style),
@@ -526,6 +619,7 @@ def run_c16(ctx):
                     rc, out, err = checks_front.cli(cbin, args, d)
                     got = read_tree(o)
                     ctx.count("compile_runs")
+                    model_world(ctx, t, exp, {lang: os.path.relpath(dirs[lang], o) for lang in sub}, {}, rc, got, args)
                     if rc != 0 or got != want_s:
                         bad = sorted(k for k in set(got) | set(want_s) if got.get(k) != want_s.get(k))
                         ctx.finding("compile/shared-directory", "compile with %s writing into one directory does not leave every generator's files there (exit %d)" % ("+".join(shared), rc),
